@@ -167,6 +167,9 @@ struct World {
     hist: Vec<String>,
     /// the Lean-side description of the last operation (driver request `fs step …`)
     lean_op: Option<String>,
+    /// Pascal on a flat PO image: the request for the concrete model (driver family `fsp`) describing the last
+    /// operation, and — for queries — the answer the real code gave (None: a mutating operation, answer must be `ok`)
+    pas_op: Option<(String, Option<String>)>,
 }
 
 fn canon_path(fs: Fs, p: &str) -> String {
@@ -455,17 +458,22 @@ fn one_history(ctx: &mut Ctx, focus: Focus, idx: usize, cfg: &VolCfg, steps: usi
         Ok(Err(e)) => { ctx.out.count(&format!("mkvol-error:{}:{}", cfgid, e)); return; }
         Err(p) => { let mut vd = Verdicts { out: &mut ctx.out, focus, idx, cfgid: cfgid.clone() }; vd.panic(&p, "format", &[]); return; }
     };
-    let mut w = World { cfg: cfg.clone(), disk, files: BTreeMap::new(), dirs: BTreeSet::new(), chunk_len: 0, hist: Vec::new(), lean_op: None };
+    let mut w = World { cfg: cfg.clone(), disk, files: BTreeMap::new(), dirs: BTreeSet::new(), chunk_len: 0, hist: Vec::new(), lean_op: None, pas_op: None };
     w.chunk_len = match guarded(|| w.disk.new_fimg(None, false, if cfg.fs.is_cpm() || cfg.fs == Fs::Fat { "A.TXT" } else { "A" })) { Ok(Ok(f)) => f.chunk_len, _ => 512 };
     let mut tie = LeanTie { prev: Vec::new(), opened: false };
     let use_lean = drv.is_some() && (cfg.flat || cfg.fs.is_cpm()) && lean_supported(cfg.fs);
+    // byte-exact tie of the concrete Pascal model (Lean `Model/Fs/Pascal.lean`): Pascal on a flat PO image only
+    let use_pas = use_lean && cfg.fs == Fs::Pascal && cfg.flat && cfg.container == "po" && std::env::var("A2V_NO_FSP").is_err();
     let mut canon: Vec<u8> = cfgid.as_bytes().to_vec();
     let mut nontrivial = false;
     let mut vd = Verdicts { out: &mut ctx.out, focus, idx, cfgid: cfgid.clone() };
     if use_lean {
         if let Some(d) = drv.as_deref_mut() {
             if let Some(e) = lean_sync(d, &mut tie, &mut w) { vd.out.count(&format!("lean-sync-error:{}", e)); }
-            else { lean_check(d, &mut w, &mut vd, "format", None); }
+            else {
+                lean_check(d, &mut w, &mut vd, "format", None);
+                if use_pas { pas_tie(d, &mut w, &mut vd, &format!("format {} {} {} ok", hxs("VERIF"), 0xee, hx(&pas_date())), None, "format"); }
+            }
         }
     }
     // directory-pressure burst: many one-chunk files into one directory, sized to cross the directory's
@@ -505,6 +513,7 @@ fn one_history(ctx: &mut Ctx, focus: Focus, idx: usize, cfg: &VolCfg, steps: usi
             _ => choose_op(&mut w, rng, free, focus),
         };
         w.lean_op = None;
+        w.pas_op = None;
         let desc = apply_op(&mut w, op, rng, free, &mut vd, &mut nontrivial);
         let lean_op = w.lean_op.take().unwrap_or("other err".to_string());
         canon.extend_from_slice(desc.as_bytes());
@@ -519,6 +528,10 @@ fn one_history(ctx: &mut Ctx, focus: Focus, idx: usize, cfg: &VolCfg, steps: usi
                     let summary = lean_step(d, &mut w, &mut vd, &lean_op, &desc);
                     lean_check_answer(&summary, &mut w, &mut vd, &desc);
                 } else { lean_check(d, &mut w, &mut vd, &desc, Some(step)); }
+                if use_pas && !desc.starts_with("ABORT") {
+                    if let Some((req, expect)) = w.pas_op.take() { pas_tie(d, &mut w, &mut vd, &req, expect, &desc); }
+                    pas_queries(d, &mut w, &mut vd, &desc);
+                }
             }
         }
     }
@@ -535,6 +548,7 @@ fn one_history(ctx: &mut Ctx, focus: Focus, idx: usize, cfg: &VolCfg, steps: usi
             let path = gen_name(cfg.fs, rng, &BTreeSet::new());
             let op = Op::Put { path, nchunks: n, holes: false, last_len: w.chunk_len, ftype_sel: rng.below(64) };
             w.lean_op = None;
+            w.pas_op = None;
             let desc = apply_op(&mut w, op, rng, free, &mut vd, &mut nontrivial);
             canon.extend_from_slice(desc.as_bytes());
             if desc.starts_with("ABORT") { break; }
@@ -545,6 +559,10 @@ fn one_history(ctx: &mut Ctx, focus: Focus, idx: usize, cfg: &VolCfg, steps: usi
                 if let Some(d) = drv.as_deref_mut() {
                     if let Some(e) = lean_sync(d, &mut tie, &mut w) { vd.out.count(&format!("lean-sync-error:{}", e)); }
                     else if !desc.starts_with("skip") { let summary = lean_step(d, &mut w, &mut vd, &lean_op, &desc); lean_check_answer(&summary, &mut w, &mut vd, &desc); }
+                    if use_pas {
+                        if let Some((req, expect)) = w.pas_op.take() { pas_tie(d, &mut w, &mut vd, &req, expect, &desc); }
+                        pas_queries(d, &mut w, &mut vd, &desc);
+                    }
                 }
             }
             if desc.contains("=> err") && round >= 3 { break; }
@@ -667,6 +685,11 @@ fn apply_op(w: &mut World, op: Op, rng: &mut Rng, free: usize, vd: &mut Verdicts
                 let (ty, aux) = type_num(fs, &r);
                 let cs = if res_tok(&res) == "ok" { r.chunks.iter().map(|(i, c)| format!("{}:{}", i, hx(c))).collect::<Vec<_>>().join(",") } else { "-".to_string() };
                 w.lean_op = Some(format!("put {} {} {} {} {} {}", hxs(&cp), res_tok(&res), r.eof, ty, aux, cs));
+                if fs == Fs::Pascal {
+                    let okp = res_tok(&res) == "ok";
+                    let pcs = r.chunks.iter().map(|(i, c)| if okp { format!("{}:{}", i, hx(c)) } else { format!("{}:-", i) }).collect::<Vec<_>>().join(",");
+                    w.pas_op = Some((format!("put {} {} {} {} {} {}", hxs(&path), fimg.get_ftype(), fimg.get_eof(), hx(&pas_date()), pas_res(&res), pcs), None));
+                }
             }
             match res {
                 Err(p) => { vd.panic(&p, "put", &w.hist.clone()); return format!("ABORT {}", d); }
@@ -710,10 +733,12 @@ fn apply_op(w: &mut World, op: Op, rng: &mut Rng, free: usize, vd: &mut Verdicts
         Op::PutDup(cp) => {
             let r = w.files[&cp].clone();
             let sp = spell(fs, &cp, rng);
-            let res = match build_fimg(w, &sp, 1, false, 7, 1, rng) { Ok((f, _)) => guarded(|| w.disk.put(&f).map_err(|e| e.to_string())), Err(e) => Ok(Err(e)) };
+            let mut pas_args = None;
+            let res = match build_fimg(w, &sp, 1, false, 7, 1, rng) { Ok((f, _)) => { pas_args = Some((f.get_ftype(), f.get_eof())); guarded(|| w.disk.put(&f).map_err(|e| e.to_string())) }, Err(e) => Ok(Err(e)) };
             let d = format!("put-dup {} => {}", sp, match &res { Ok(Ok(_)) => "ok".to_string(), Ok(Err(e)) => format!("err:{}", err_class(e)), Err(_) => "PANIC".to_string() });
             w.hist.push(d.clone());
             w.lean_op = Some(format!("put {} {} 0 0 0 -", hxs(&cp), res_tok(&res)));
+            if let (Fs::Pascal, Some((ft, eof))) = (fs, pas_args) { w.pas_op = Some((format!("put {} {} {} {} {} 0:-", hxs(&sp), ft, eof, hx(&pas_date()), pas_res(&res)), None)); }
             match res {
                 Err(p) => { vd.panic(&p, "put", &w.hist.clone()); return format!("ABORT {}", d); }
                 Ok(Ok(_)) => { vd.v(Focus::C05, false, "duplicate-put-refused", &format!("put onto existing {} succeeded", cp), &w.hist.clone()); return format!("ABORT {}", d); }
@@ -731,6 +756,7 @@ fn apply_op(w: &mut World, op: Op, rng: &mut Rng, free: usize, vd: &mut Verdicts
             let d = format!("delete {}{} => {}", sp, if locked { "(locked)" } else { "" }, match &res { Ok(Ok(_)) => "ok".to_string(), Ok(Err(e)) => format!("err:{}", err_class(e)), Err(_) => "PANIC".to_string() });
             w.hist.push(d.clone());
             w.lean_op = Some(format!("delete {} {}", hxs(&cp), res_tok(&res)));
+            if fs == Fs::Pascal { w.pas_op = Some((format!("delete {} {}", hxs(&sp), pas_res(&res)), None)); }
             match res {
                 Err(p) => { vd.panic(&p, "delete", &w.hist.clone()); return format!("ABORT {}", d); }
                 Ok(Ok(_)) => {
@@ -759,6 +785,7 @@ fn apply_op(w: &mut World, op: Op, rng: &mut Rng, free: usize, vd: &mut Verdicts
             let d = format!("rename {}{} -> {} => {}", sp, if locked { "(locked)" } else { "" }, newbase_arg, match &res { Ok(Ok(_)) => "ok".to_string(), Ok(Err(e)) => format!("err:{}", err_class(e)), Err(_) => "PANIC".to_string() });
             w.hist.push(d.clone());
             w.lean_op = Some(format!("rename {} {} {}", hxs(&cp), hxs(&target), res_tok(&res)));
+            if fs == Fs::Pascal { w.pas_op = Some((format!("rename {} {} {}", hxs(&sp), hxs(&newbase_arg), pas_res(&res)), None)); }
             match res {
                 Err(p) => { vd.panic(&p, "rename", &w.hist.clone()); return format!("ABORT {}", d); }
                 Ok(Ok(_)) => {
@@ -782,6 +809,7 @@ fn apply_op(w: &mut World, op: Op, rng: &mut Rng, free: usize, vd: &mut Verdicts
             {
                 let tgt = if fs.is_cpm() { canon_path(fs, &nb_arg) } else { match parent_of(&a) { Some(par) => format!("{}/{}", par, nb), None => nb.clone() } };
                 w.lean_op = Some(format!("rename {} {} {}", hxs(&a), hxs(&tgt), res_tok(&res)));
+                if fs == Fs::Pascal { w.pas_op = Some((format!("rename {} {} {}", hxs(&a), hxs(&nb_arg), pas_res(&res)), None)); }
             }
             match res {
                 Err(p) => { vd.panic(&p, "rename", &w.hist.clone()); return format!("ABORT {}", d); }
@@ -810,6 +838,7 @@ fn apply_op(w: &mut World, op: Op, rng: &mut Rng, free: usize, vd: &mut Verdicts
             let d = format!("retype {} {} {} => {}", cp, typ, sub, match &res { Ok(Ok(_)) => "ok".to_string(), Ok(Err(e)) => format!("err:{}", err_class(e)), Err(_) => "PANIC".to_string() });
             w.hist.push(d.clone());
             w.lean_op = Some(format!("retype {} {}", hxs(&cp), res_tok(&res)));
+            if fs == Fs::Pascal { let code = match typ.as_str() { "txt" => "3", "bin" => "5", "pcode" => "2", _ => "none" }; w.pas_op = Some((format!("retype {} {} {}", hxs(&cp), code, pas_res(&res)), None)); }
             match res {
                 Err(p) => { vd.panic(&p, "retype", &w.hist.clone()); return format!("ABORT {}", d); }
                 Ok(Ok(_)) => {
@@ -840,6 +869,7 @@ fn apply_op(w: &mut World, op: Op, rng: &mut Rng, free: usize, vd: &mut Verdicts
             let res = w.get(&p);
             let d = format!("get-missing {} => {}", p, match &res { Ok(Ok(_)) => "ok", Ok(Err(_)) => "err", Err(_) => "PANIC" });
             w.hist.push(d.clone());
+            if fs == Fs::Pascal { w.pas_op = Some((format!("get {}", hxs(&p)), Some(pas_get_answer(&res)))); }
             match res { Err(pn) => vd.panic(&pn, "get", &w.hist.clone()), Ok(Ok(_)) => vd.v(Focus::C05, false, "unlisted-not-fetchable", &format!("{} fetched but never stored", cp), &w.hist.clone()), Ok(Err(_)) => vd.v(Focus::C05, true, "unlisted-not-fetchable", "", &[]) }
             d
         }
@@ -849,6 +879,7 @@ fn apply_op(w: &mut World, op: Op, rng: &mut Rng, free: usize, vd: &mut Verdicts
             let res = guarded(|| w.disk.delete(&p).map_err(|e| e.to_string()));
             let d = format!("delete-missing {} => {}", p, match &res { Ok(Ok(_)) => "ok", Ok(Err(_)) => "err", Err(_) => "PANIC" });
             w.hist.push(d.clone());
+            if fs == Fs::Pascal { w.pas_op = Some((format!("delete {} {}", hxs(&p), pas_res(&res)), None)); }
             match res { Err(pn) => vd.panic(&pn, "delete", &w.hist.clone()), Ok(Ok(_)) => vd.v(Focus::C05, false, "delete-missing-refused", &format!("delete of never-stored {} succeeded", cp), &w.hist.clone()), Ok(Err(_)) => vd.v(Focus::C05, true, "delete-missing-refused", "", &[]) }
             d
         }
@@ -1077,4 +1108,70 @@ fn lean_check_answer(ans: &str, w: &mut World, vd: &mut Verdicts, last: &str) {
         let extra: Vec<&String> = lf.difference(&rf).take(3).collect();
         vd.v(Focus::C05, false, "reader-listing-equals-history", &format!("missing={:?} extra={:?} dirs={:?}", missing, extra, dirs), &hist);
     } else { vd.v(Focus::C05, true, "reader-listing-equals-history", "", &[]); }
+}
+
+// ------------------------------------------------------------------------------------------
+// byte-exact tie of the concrete Pascal model (Lean `Model/Fs/Pascal.lean`, driver family `fsp`)
+
+/// `pack_date(None)` of a2kit's Pascal module, recomputed from the (pinned) clock
+fn pas_date() -> Vec<u8> {
+    use chrono::Datelike;
+    let now = chrono::Local::now().naive_local();
+    let (_ce, year) = now.year_ce();
+    let packed = (now.month() + (now.day() << 4) + ((year % 100) << 9)) as u16;
+    packed.to_le_bytes().to_vec()
+}
+
+/// result class of a real Pascal operation in the vocabulary of the model (`Err.token`)
+fn pas_err_tok(e: &str) -> String {
+    match e {
+        "no file" => "nofile", "error reading real or integer" => "badformat", "illegal filename" => "badtitle",
+        "duplicate file" => "duplicate", "illegal operation" => "badmode", "insufficient space" => "noroom",
+        "failed to complete read or write" => "deverr", "no device" => "nodev", _ => return format!("other({})", e.replace(' ', "_")),
+    }.to_string()
+}
+fn pas_res<T>(r: &Result<Result<T, String>, String>) -> String {
+    match r { Ok(Ok(_)) => "ok".to_string(), Ok(Err(e)) => format!("err:{}", pas_err_tok(e)), Err(_) => "err:panic".to_string() }
+}
+fn pas_adler(chunks: &BTreeMap<usize, Vec<u8>>) -> u64 {
+    let (mut a, mut b) = (1u64, 0u64);
+    for (_, c) in chunks { for x in c { a = (a + *x as u64) % 65521; b = (b + a) % 65521; } }
+    b * 65536 + a
+}
+fn pas_get_answer(r: &Result<Result<FileImage, String>, String>) -> String {
+    match r {
+        Ok(Ok(g)) => { let cs: BTreeMap<usize, Vec<u8>> = g.chunks.iter().map(|(k, v)| (*k, v.clone())).collect(); format!("ok {} {} {} {}", g.get_ftype(), g.get_eof(), cs.len(), pas_adler(&cs)) }
+        Ok(Err(e)) => format!("err:{}", pas_err_tok(e)),
+        Err(_) => "err:panic".to_string(),
+    }
+}
+fn pas_verdict(vd: &mut Verdicts, w: &World, pass: bool, kind: &str, detail: &str) {
+    let hist = w.hist.clone();
+    for f in [Focus::C01, Focus::C02, Focus::C03, Focus::C05] {
+        if pass { vd.v(f, true, "concrete-model", "", &[]); } else { vd.v(f, false, &format!("concrete-model:{}", kind), detail, &hist); }
+    }
+}
+/// send one operation to the concrete model; `expect` = the real answer of a query, None = a mutating operation
+/// (the driver compares result class and the whole image with the mirror and answers `ok`)
+fn pas_tie(drv: &mut Drv, w: &mut World, vd: &mut Verdicts, req: &str, expect: Option<String>, desc: &str) {
+    let ans = drv.ask(&format!("fsp {}", req));
+    let want = expect.unwrap_or("ok".to_string());
+    if ans == want { pas_verdict(vd, w, true, "", ""); return; }
+    let kind = if ans.starts_with("bad result") { "result" } else if ans.starts_with("bad block") { "image" } else { req.split(' ').next().unwrap_or("?") }.to_string();
+    let short: String = req.chars().take(160).collect();
+    pas_verdict(vd, w, false, &kind, &format!("concrete Pascal model disagrees after [{}]: request [{}] model answered [{}] expected [{}]", desc, short, ans, want));
+}
+/// after every step: free count, catalog, and (after a successful put) the file as `get` returns it
+fn pas_queries(drv: &mut Drv, w: &mut World, vd: &mut Verdicts, desc: &str) {
+    if let Ok(f) = w.free() { pas_tie(drv, w, vd, "free", Some(format!("ok {}", f)), desc); }
+    if let Ok(Ok(rows)) = guarded(|| w.disk.catalog_to_vec("/").map_err(|e| e.to_string())) {
+        let code = |t: &str| -> String { match t { "NONE" => "0".into(), "BAD" => "1".into(), "CODE" => "2".into(), "TEXT" => "3".into(), "INFO" => "4".into(), "DATA" => "5".into(), "GRAF" => "6".into(), "FOTO" => "7".into(), "SECURE" => "8".into(), x => u8::from_str_radix(x.trim_start_matches('$'), 16).map(|v| v.to_string()).unwrap_or(x.to_string()) } };
+        let items: Vec<String> = rows.iter().map(|r| { let t: Vec<&str> = r.split_whitespace().collect(); if t.len() == 3 { format!("{}:{}:{}", hxs(t[2]), t[1], code(t[0])) } else { format!("?{}", r.replace(' ', "_")) } }).collect();
+        pas_tie(drv, w, vd, "cat", Some(format!("ok {}", if items.is_empty() { "-".to_string() } else { items.join(",") })), desc);
+    }
+    if desc.starts_with("put ") && desc.ends_with("=> ok") {
+        let name = desc.splitn(2, ' ').nth(1).unwrap_or("").split(" chunks=").next().unwrap_or("").to_string();
+        let res = w.get(&name);
+        pas_tie(drv, w, vd, &format!("get {}", hxs(&name)), Some(pas_get_answer(&res)), desc);
+    }
 }
